@@ -493,6 +493,28 @@ impl Stream for ProtocolSet {
     }
 }
 
+// Verification hooks (runtime-monitoring harness only).
+#[cfg(feature = "verif")]
+impl ProtocolSet {
+    /// [`ProtocolSet::report_connection_established()`] for the scripted connections.
+    pub async fn verif_report_connection_established(
+        &mut self,
+        peer: PeerId,
+        endpoint: Endpoint,
+    ) -> crate::Result<()> {
+        self.report_connection_established(peer, endpoint).await
+    }
+
+    /// [`ProtocolSet::report_connection_closed()`] for the scripted connections.
+    pub async fn verif_report_connection_closed(
+        &mut self,
+        peer: PeerId,
+        connection_id: ConnectionId,
+    ) -> crate::Result<()> {
+        self.report_connection_closed(peer, connection_id).await
+    }
+}
+
 #[cfg(test)]
 mod tests {
     use super::*;
